@@ -1,3 +1,4 @@
+import ast
 import subprocess as sp
 import warnings
 
@@ -52,7 +53,17 @@ def format_code(text, filename):
                 + result.stderr.decode("utf-8")
             )
             return text
-        return result.stdout.decode("utf-8")
+        new_text = result.stdout.decode("utf-8")
+        try:
+            ast.parse(new_text)
+        except (SyntaxError, ValueError):
+            raise_problem(
+                f"""\
+[b]The format_command '{escape(format_command)}' returned code which is not valid python.[/b]
+"""
+            )
+            return text
+        return new_text
 
     try:
         from black import format_str
